@@ -1,25 +1,99 @@
 //! incremental-map per-key graph operators (C16, per-key part of C17)
 //!
+//! Subject: `incr_mapi_`, `incr_filter_mapi_`, `incr_mapi_cutoff`, `incr_filter_mapi_cutoff`
+//! on `BTreeMap` (`IncrBTreeMap`) and `im_rc::OrdMap` (`IncrOrdMap`).
+//!
+//! A program = (operator, cutoff variant, map type, per-key user-function family, K keys).
+//! Alphabet: `Stabilise`, `SetMap(i)` for every map over keys `0..K` with values {1,2}
+//! (3^K maps), `SetOuter(d)`, d in {0,1,2} (families reading the outer variable only),
+//! `ToggleObserver` (drop / re-create the only observer; a world starts observed, empty map).
+//!
+//! Oracles (after each `Stabilise` with a live observer; `world.rs::judge`):
+//!   C16.value                    observed output == per-entry application on the current input
+//!   C16.panic                    any panic in any action
+//!   C17.builder_only_new_keys    F invoked only for keys newly present w.r.t. the operator's
+//!                                previous input (= input at the last observed stabilise), once
+//!   C17.unchanged_key_recomputed a closure created for key k ran although k's entry equals the
+//!                                operator's previous input and the outer variable equals its
+//!                                value at the last observed stabilise
+//! Deliberate slack: closures of keys that are being removed are not judged; nodes shared by
+//! all keys (family `shared`, the `other` node of `bind_existing`) are not judged for C17;
+//! "F must be called for every new key" is not demanded (C16.value covers its effect);
+//! only equality-like cutoffs are used (`Never`, `Fn(==)`), so the definition of C16 applies
+//! unchanged to the `_cutoff` operators.
+//!
+//! Family names (`hx dev pkmaps <family> <depth>`), `-k2` = 2 keys (9 maps), `-k3` = 3 keys
+//! (27 maps). Each family has one program (= unit) per (operator x cutoff x map type):
+//! 12 per user-function variant (6 for `identity`, which has no filter form).
+//!
+//!   family                variants                         units  quick  thorough
+//!   c16/pure-k2           pure                               12     8       12
+//!   c16/identity-k2       identity                            6     8       12
+//!   c16/map2-k2           map2                               12     6        8
+//!   c16/bind-k2           bind_existing, bind_fresh          24     6        8
+//!   c16/ignore-k2         ignore_const, ignore_outer         24     6        8
+//!   c16/shared-k2         shared_outer, shared_const         24     6        8
+//!   c16/all-k2            all of the above                  102     6        8
+//!   c16/<x>-k3            same with 3 keys                  same    4        6
+//! (depths are with pruning; see the report of the build phase for measured sizes)
+//!
 //! Entry points used by `plan.rs` (keep these four signatures).
+
+pub mod world;
 
 use crate::core::{Cfg, Violation};
 use crate::explore::{Marker, Stats};
 use crate::plan::{JobDef, Tier};
 use serde_json::Value as Json;
 use std::time::Instant;
+use world::{Cut, Fam, MapTy, Op, PkWorld, Prog};
 
-pub fn units(_job: &JobDef, _tier: Tier) -> usize {
-    0
+/// Deterministic list of programs of a family. Unknown names give an empty list.
+pub fn programs(family: &str, _tier: Tier) -> Vec<Prog> {
+    let Some(rest) = family.strip_prefix("c16/") else { return vec![] };
+    let Some((name, k)) = rest.rsplit_once("-k") else { return vec![] };
+    let Ok(k) = k.parse::<u8>() else { return vec![] };
+    if !(1..=4).contains(&k) {
+        return vec![];
+    }
+    let fams: Vec<Fam> = match name {
+        "pure" => vec![Fam::Pure],
+        "identity" => vec![Fam::Identity],
+        "map2" => vec![Fam::Map2],
+        "bind" => vec![Fam::BindExisting, Fam::BindFresh],
+        "ignore" => vec![Fam::IgnoreConst, Fam::IgnoreOuter],
+        "shared" => vec![Fam::SharedOuter, Fam::SharedConst],
+        "all" => Fam::ALL.to_vec(),
+        _ => return vec![],
+    };
+    let mut out = vec![];
+    for fam in fams {
+        for map in [MapTy::BTree, MapTy::Ord] {
+            for op in [Op::Mapi, Op::FilterMapi] {
+                if fam == Fam::Identity && op == Op::FilterMapi {
+                    continue;
+                }
+                for cut in [Cut::None, Cut::Never, Cut::FnEq] {
+                    out.push(Prog { op, cut, map, fam, k });
+                }
+            }
+        }
+    }
+    out
 }
 
-pub fn run_unit(_job: &JobDef, _job_ix: u32, _unit: usize, _tier: Tier, _deadline: Option<Instant>, _marker: &Marker, stats: &mut Stats) {
-    stats.machinery_errors.push("world not implemented".into());
+pub fn units(job: &JobDef, tier: Tier) -> usize {
+    crate::driver::units::<PkWorld>(&programs(&job.family, tier), job)
 }
 
-pub fn replay(_cfg: &Cfg, _prog: &Json, _history: &[Json]) -> Result<(Vec<(usize, Violation)>, Vec<String>, u64), String> {
-    Err("world not implemented".into())
+pub fn run_unit(job: &JobDef, job_ix: u32, unit: usize, tier: Tier, deadline: Option<Instant>, marker: &Marker, stats: &mut Stats) {
+    crate::driver::run_unit::<PkWorld>(&programs(&job.family, tier), job, job_ix, unit, deadline, marker, stats)
 }
 
-pub fn history_from_choices(_job: &JobDef, _unit: usize, _tier: Tier, _choices: &[u16]) -> Option<(Json, Vec<Json>)> {
-    None
+pub fn replay(cfg: &Cfg, prog: &Json, history: &[Json]) -> Result<(Vec<(usize, Violation)>, Vec<String>, u64), String> {
+    crate::driver::replay::<PkWorld>(cfg, prog, history)
+}
+
+pub fn history_from_choices(job: &JobDef, unit: usize, tier: Tier, choices: &[u16]) -> Option<(Json, Vec<Json>)> {
+    crate::driver::history_from_choices::<PkWorld>(&programs(&job.family, tier), job, unit, choices)
 }
